@@ -87,3 +87,44 @@ def compiler_table_frame(modinfo):
                 'verdict': 'proved' if has_finally else 'failed', 'detail': 'try/finally present' if has_finally else 'no try/finally around the nested compilation',
                 'lineno': getattr(sel, 'lineno', None)})
     return out
+
+
+# ---- IN (subquery): value computed once per compiled statement, NULL when the subquery returns no row -------------
+QC = 'beanquery.query_compile'
+SUBQUERY = Obj(f'{QC}:EvalQuery', fields={}, ghost=dict(g_rows=ListOf(Dyn(('seq',)))))
+MARKER = GlobalRef(f'{QC}:MARKER')
+
+
+class _execute_query_rows:
+    """assumed contract of execute_query for this caller: the rows are a function of the compiled query
+    (ghost field g_rows); its own obligations are bounded (h01-h03, h08)"""
+    kind = 'assumed'
+    params = {'query': SUBQUERY}
+    result = Fixed([Dyn(), ListOf(Dyn(('seq',)))])
+    ensures = [('rows-of-the-query', lambda query, result: result[1] == query.g_rows)]
+
+
+EXECUTE_QUERY_ROWS = Contract('beanquery.query_execute:execute_query', _execute_query_rows, 'rows')
+
+
+@contract(f'{QC}:EvalConstantSubquery1D.__call__', 'first-evaluation')
+class subquery1d_first:
+    props = ['C08', 'C09']
+    params = {'self': Obj(f'{QC}:EvalConstantSubquery1D', fields=dict(dtype=Opaque('type'), subquery=SUBQUERY, value=MARKER)), 'context': Opaque('ctx')}
+    callees = {'beanquery.query_execute:execute_query': EXECUTE_QUERY_ROWS}
+    modifies = ['self.value']
+    native = False
+    assumes = ['rows returned by execute_query are sequences with at least one cell (single-column check of _inop)']
+    ensures = [('list-of-first-cells-or-null-when-empty', lambda self, result:
+                result == (None if len(self.subquery.g_rows) == 0 else [r[0] for r in self.subquery.g_rows])),
+               ('cached', lambda self, result: self.value == result)]
+
+
+@contract(f'{QC}:EvalConstantSubquery1D.__call__', 'later-evaluations')
+class subquery1d_cached:
+    props = ['C08', 'C09']
+    params = {'self': Obj(f'{QC}:EvalConstantSubquery1D', fields=dict(dtype=Opaque('type'), subquery=SUBQUERY, value=Opt(ListOf(Dyn())))), 'context': Opaque('ctx')}
+    callees = {'beanquery.query_execute:execute_query': EXECUTE_QUERY_ROWS}
+    modifies = []                    # in particular the subquery is not executed again (execute_query is not even reachable)
+    native = False
+    ensures = [('returns-the-cached-value', lambda old, self, result: result == old.self.value)]
